@@ -343,8 +343,24 @@ def c11_r6(ctx):
     prog = ctx.prog
     cls = prog.cls("codec.whoosh3.W3LeafMatcher")
     n = 0
-    for m, f in cls.methods.items():
+
+    def judge(f, body, where):
         al = norm.aliases(f.node)
+        t = norm.canon(body, al) if body is not None else "?"
+        params = f.params[1:]
+        tgt = params[0] if params else "?"
+        if "block_max_id" in t:
+            ok = t == "(self.block_max_id() < %s)" % tgt
+            want = "%s > block_max_id()" % tgt
+        elif "block_quality" in t:
+            ok = t == "(self.block_quality() <= %s)" % tgt
+            want = "block_quality() <= %s" % tgt
+        else:
+            ok, want = False, "a comparison with block_max_id() or block_quality()"
+        ctx.ob(f, ok, "blocks are skipped while %s" % want, detail="predicate: %s" % t, loc=ctx.nodeloc(f, where))
+    for m, f in cls.methods.items():
+        if m == "_skip_to_block":
+            continue
         for c in norm.calls_in(f.node):
             if norm.call_name(c) != "_skip_to_block" or not c.args:
                 continue
@@ -357,27 +373,26 @@ def c11_r6(ctx):
                 for d in ast.walk(f.node):
                     if isinstance(d, ast.FunctionDef) and d.name == pred.id and len(d.body) == 1 and isinstance(d.body[0], ast.Return):
                         body = d.body[0].value
-            t = norm.canon(body, al) if body is not None else "?"
-            params = f.params[1:]
-            tgt = params[0] if params else "?"
-            if "block_max_id" in t:
-                ok = t == "(self.block_max_id() < %s)" % tgt
-                want = "%s > block_max_id()" % tgt
-            elif "block_quality" in t:
-                ok = t == "(self.block_quality() <= %s)" % tgt
-                want = "block_quality() <= %s" % tgt
-            else:
-                ok, want = False, "a comparison with block_max_id() or block_quality()"
-            ctx.ob(f, ok, "blocks are skipped while %s" % want, detail="predicate: %s" % t, loc=ctx.nodeloc(f, c))
+            judge(f, body, c)
+        # the same loop written out in place:  while self.is_active() and <predicate>: self._next_block()
+        for w in ast.walk(f.node):
+            if isinstance(w, ast.While) and any(norm.call_name(c_) == "_next_block" for s_ in w.body for c_ in norm.calls_in(s_)):
+                conj = w.test.values if isinstance(w.test, ast.BoolOp) and isinstance(w.test.op, ast.And) else [w.test]
+                preds = [x for x in conj if norm.canon(x) != "self.is_active()"]
+                n += 1
+                ctx.saw(f)
+                if len(preds) == 1:
+                    judge(f, preds[0], w)
+                else:
+                    ctx.ob(f, False, "a block-skipping loop has exactly one skipping predicate", detail=norm.canon(w.test), loc=ctx.nodeloc(f, w))
     sb = cls.methods.get("_skip_to_block")
-    if sb is None:
-        raise AnalysisError("W3LeafMatcher._skip_to_block vanished")
-    loops = [w for w in ast.walk(sb.node) if isinstance(w, ast.While)]
-    ok = len(loops) == 1 and any(norm.call_name(c_) == sb.params[1] for c_ in norm.calls_in(loops[0].test)) and \
-        any(norm.call_name(c_) == "_next_block" for s_ in loops[0].body for c_ in norm.calls_in(s_))
-    ctx.ob(sb, ok, "_skip_to_block tests the predicate before every _next_block()")
+    if sb is not None:
+        loops = [w for w in ast.walk(sb.node) if isinstance(w, ast.While)]
+        ok = len(loops) == 1 and any(norm.call_name(c_) == sb.params[1] for c_ in norm.calls_in(loops[0].test)) and \
+            any(norm.call_name(c_) == "_next_block" for s_ in loops[0].body for c_ in norm.calls_in(s_))
+        ctx.ob(sb, ok, "_skip_to_block tests the predicate before every _next_block()")
     if n < 2:
-        raise AnalysisError("only %d _skip_to_block call sites" % n)
+        raise AnalysisError("only %d block-skipping sites in W3LeafMatcher" % n)
 
 
 @rule("C11", "R7", "K2", "MultiMatcher.skip_to re-tests the target after it moves on to the next segment's matcher",
